@@ -21,7 +21,8 @@ EXPLANATION = (
     "implicit ones (bounds check of an index expression, zero check of integer / and %) are proved from "
     "their dominating comparisons or audited; (R7) the error path of the fetch-execute loop unwinds the "
     "context states a failing statement had opened (shared with C05.R6); (R11) after every user block the next emitted instruction is preceded by a resume point (shared with C05.R2): RESUME NEXT after the last statement of the main module must not run into a subprogram body; (R12) array subscripts and bounds are refused unless castable to a numeric type (shared with C12.R9), so nothing unresolved reaches the generator."
-    " (R14 = C05.R11) RESUME label leaves every active call, cutting the VM stacks back to what the outermost call recorded.")
+    " (R14 = C05.R11) RESUME label leaves every active call, cutting the VM stacks back to what the outermost call recorded."
+    " (R15 = C12.R11) what the casting emitter cannot convert (arrays, records) the checker lets through by value only for a parameter of the same type - evaluated on every pair.")
 NOT_DECIDED = ["panic-freedom in general (arithmetic overflow in the debug profile, stack depth, panics inside std)"]
 
 PCL = labels.PCL
@@ -596,5 +597,9 @@ def run(ctx):
     # RESUME label leaves every active call: what an outer call left on the VM stacks goes with it, or a
     # later RETURN / EXIT SUB of the main module runs on the stacks of a call that is over (PopRet underflows)
     c05.r11_resume_label_abandons_active_calls(ctx, "C08.R14")
+    # the casting emitter panics on a target it has no conversion for (arrays, records): the checker's by-value
+    # predicate accepts an array / a record only for a parameter of the very same type
+    from .. import optables as _ot
+    c12.r11_no_conversion_between_arrays(ctx, _ot.OpTables(ctx.prog), "C08.R15")
     from . import panics
     panics.r_audit(ctx, "C08.R6", scope="backend")
